@@ -1,8 +1,29 @@
-"""C12 - remaining containers are equivalent to their abstract models."""
+"""C12 - remaining containers are equivalent to their abstract models (part A: the plain containers).
+
+One SeqUnit per (module, SUT): exhaustive TLC of the module, LTS tour + random walks on the real object
+(model -> code), recorded random histories validated by TLC (code -> model).  Modules with two SUTs
+(PriorityQueue: the public type and generalheap driven directly; Stack: simple and thread-safe) are model
+checked once.
+"""
 from lib.units import SeqUnit
+
+
+def _second(sub, module, sut, **kw):
+    u = SeqUnit(sub, module, sut=sut, do_mc=False, **kw)
+    u.name = sut
+    return u
 
 
 def units(ctx):
     return [
         SeqUnit("containers", "Queue"),
+        SeqUnit("containers", "ShrinkingMap", walks=(100, 40), traces=(60, 120)),
+        SeqUnit("containers", "RandomMap"),
+        SeqUnit("containers", "PriorityQueue"),
+        _second("containers", "PriorityQueue", "GeneralHeap"),
+        SeqUnit("containers", "TimedPriorityQueue"),
+        SeqUnit("containers", "RingBuffer"),
+        _second("containers", "Stack", "StackSimple"),
+        SeqUnit("containers", "Stack", sut="StackThreadSafe"),
+        SeqUnit("containers", "BytesFilter", traces=(60, 200)),
     ]
